@@ -323,8 +323,9 @@ class VEngine(Engine):
                     self.oblige("raise::%s@%s::%s" % (x.exc, getattr(x, "tag", "?"), cl.name), x.st, z3.Not(cond), "raises", True, cl.props or RP, fi.node, cl)
             allowed = [rs for rs in c.raises if exc_matches(x.exc, rs.exc) or exc_matches(rs.exc, x.exc) and x.exc in ("Exception",)]
             name = "raise::%s@%s" % (x.exc, getattr(x, "tag", None) or (x.where or "?").split(":")[-1])
-            if not allowed:
-                self.oblige("no-" + name, x.st, z3.BoolVal(False), "raises", True, RP9, fi.node)
+            if not allowed or str(getattr(x, "tag", "")).startswith("internal["):
+                # undeclared class, or an error raised inside NumPy on an empty reduction: never an intended exit
+                self.oblige("no-" + name, x.st, z3.BoolVal(False), "raises", True, RP9 if allowed == [] or not getattr(c, "raise_props", None) else tuple(c.raise_props), fi.node)
                 continue
             conds = []
             for rs in allowed:
